@@ -94,9 +94,39 @@ def run_graceful_then_fatal(case):
     return res
 
 
+def run_verdict_then_close(case):
+    """The device's answer carries a rejecting verdict (invalid password / wrong name / incompatible version) and is
+    followed, in the same chunk or turn, by something that closes the connection.  The verdict is the first cause:
+    connect() must fail exactly as it does without the trailing close."""
+    base = case["base"]
+    one = {**copy.deepcopy(base), "events": []}
+    two = {**copy.deepcopy(base), "events": list(case.get("after") or [])}
+    if case.get("trailer"):
+        two["hello_extra"] = list(case["trailer"])
+    if case.get("then"):
+        two["hello_then"] = case["then"]
+    o1, o2 = life.run(one), life.run(two)
+    for o in (o1, o2):
+        if o.harness_error:
+            raise HarnessError(f"C09: {o.harness_error} in {case}")
+    res = CaseResult()
+    res.violations = life.oracle_c09(o1) + life.oracle_c09(o2)
+    a, b = _outcomes(o1), _outcomes(o2)
+    res.info = {"verdict_alone": a, "verdict_then_close": b}
+    if a.get("main") in (None, "ok"):
+        raise HarnessError(f"C09 verdict_then_close: base case does not reject: {a}")
+    if b.get("main") != a.get("main"):
+        res.violations.append(Violation(ID, f"c09:first-cause-masked:verdict:{a.get('main')}->{b.get('main')}", f"{case.get('what')}: alone connect() raises {a.get('main')}; with {case.get('trailer') or ''} {case.get('then') or ''} right behind it raises {b.get('main')}"))
+    res.classes = sorted(classify(o2, two) | {"verdict_then_close"})
+    res.nontrivial = True
+    return res
+
+
 def run_case(case):
     if case.get("kind") == "graceful_then_fatal":
         return run_graceful_then_fatal(case)
+    if case.get("kind") == "verdict_then_close":
+        return run_verdict_then_close(case)
     if case.get("kind") != "first_cause":
         res = run_with(ID, case)
         res.nontrivial = "fault_while_op_pending" in res.classes
@@ -238,7 +268,7 @@ def _first_cause_random(draw, tier):
     for _ in range(draw(st.integers(0, 2))):
         act = draw(
             st.sampled_from(
-                [{"do": "eof"}, {"do": "reset"}, {"do": "disconnect"}, {"do": "force"}, {"do": "writefail_raise"}, {"do": "writefail_raise_rt"},
+                [{"do": "eof"}, {"do": "reset"}, {"do": "reset_etimedout"}, {"do": "lost_raw"}, {"do": "disconnect"}, {"do": "force"}, {"do": "writefail_raise"}, {"do": "writefail_raise_rt"},
                  {"do": "chunk", "frames": ["garbage"]}, {"do": "chunk", "frames": ["reqenc"]}, {"do": "chunk", "frames": ["discreq"]}]
             )
         )
@@ -260,8 +290,24 @@ def strategy(tier):
     return st.one_of(life.case_strategy(tier), _net_case(tier), _silence_case(tier), _first_cause_random(tier), _graceful_then_fatal_random(tier))
 
 
+def _verdict_cases():
+    for noise in (False, True):
+        for what, cfg in (("invalid-password", {"invalid_password": True, "login": True, "password": "pw"}), ("wrong-name", {"expected_name": "kitchen", "login": True}),
+                          ("wrong-name-no-login", {"expected_name": "kitchen", "login": False}), ("incompatible-version", {"api_major": 3, "login": True}),
+                          ("incompatible-version-no-login", {"api_major": 4, "login": False})):
+            base = {"noise": noise, "flow": "connect", "K": 8.0, "final_at": 200.0, **cfg}
+            for trailer in (["discreq"], ["garbage"], ["badproto"], ["state", "discreq"], ["ping", "garbage"]):
+                yield {"kind": "verdict_then_close", "what": what, "base": base, "trailer": trailer}
+                yield {"kind": "verdict_then_close", "what": what, "base": {**base, "hello_cuts": [7]}, "trailer": trailer}
+            # EOF / reset delivered right behind the answer, in the same loop turn
+            for then in ("eof", "reset"):
+                yield {"kind": "verdict_then_close", "what": what, "base": base, "then": then}
+                yield {"kind": "verdict_then_close", "what": what, "base": base, "then": then, "trailer": ["state"]}
+
+
 def enumerated(tier):
     yield from _first_cause_cases(tier)
+    yield from _verdict_cases()
     # resolver x TCP matrix for one and two addresses
     dns_opts = [["ok", ["10.1.0.1"], 2], ["ok", ["10.1.0.1", "fd00::9"], 1], ["empty", 1], ["error", 1], ["hang"]]
     tcp_opts = [["ok", 4], ["refuse", 4], ["oserror", 2], ["hang"]]
